@@ -73,6 +73,22 @@ def dec1_cases(ctx):
         for t in range(256):
             out.append(full + [t])
         out.append(full + full)
+    # what a head reader does may not depend on HOW MUCH input follows the head (a wide load on a long buffer, a fast path
+    # when "enough" bytes are available): one representative of every initial byte with a non-trivial argument (value 2 in the
+    # low byte, and a value using every argument byte), followed by 2..17 further bytes
+    for ib in range(256):
+        k = arg_len(ib)
+        mt = ib >> 5
+        forms = [min_token(ib)]
+        if k:
+            a = [2] if k == 1 else [0] * (k - 1) + [2]
+            b = list(range(1, k + 1))
+            forms = [[ib] + a, [ib] + b]
+            if mt in (2, 3):
+                forms = [[ib] + a + [0x61, 0x62]]
+        for full in forms:
+            for extra in (2, 3, 4, 7, 8, 9, 15, 16, 17):
+                out.append(full + [0x01 + (i % 5) for i in range(extra)])
     return [hx(b) for b in out]
 
 def min_token(ib):
@@ -184,6 +200,9 @@ def mem_cases(ctx):
         out.append("hb %d 0" % a)
         out.append("hdr %d 0" % a)
         out.append("grow %d 0" % a)
+        out.append("growm %d 0" % a)
+        out.append("growc %d 0" % a)
+        out.append("growc %d 1" % a)
     pairs = [(a, b) for a in vals for b in vals] if ctx.tier != "quick" else \
             [(a, b) for i, a in enumerate(vals) for j, b in enumerate(vals) if (i + j) % 3 == 0 or a < 4 or b < 4 or abs(a.bit_length() + b.bit_length() - 64) <= 1]
     for a, b in pairs:
